@@ -225,20 +225,31 @@ func nameMatches(full, want string) bool {
 	return false
 }
 
+// strictConv, when set, makes integer conversions that may change the value (narrowing, sign change)
+// opaque to matching. Used for guards whose soundness depends on the exact integer compared.
+var strictConv = false
+
+func convStrip(t *Term) *Term {
+	if strictConv {
+		return t
+	}
+	return stripConv(t)
+}
+
 func (p *Pat) Match(t *Term, b Binds) bool {
 	if t == nil {
 		return false
 	}
-	t = stripConv(t)
+	t = convStrip(t)
 	for t.K == TUn && t.Name == "&" {
-		t = stripConv(t.Sub[0])
+		t = convStrip(t.Sub[0])
 	}
 	switch p.K {
 	case "any":
 		return true
 	case "var":
 		if prev, ok := b[p.Name]; ok {
-			return stripConv(prev).s == t.s
+			return convStrip(prev).s == t.s
 		}
 		b[p.Name] = t
 		return true
@@ -390,4 +401,11 @@ func findTerm(t *Term, pat string, b Binds) *Term {
 		}
 	})
 	return found
+}
+
+// findAtomStrict is findAtom with lossy integer conversions treated as opaque.
+func findAtomStrict(facts []Atom, pat string, b Binds) (Atom, bool) {
+	strictConv = true
+	defer func() { strictConv = false }()
+	return findAtom(facts, pat, b)
 }
